@@ -475,8 +475,8 @@ func (parser *Parser) ParseExpression(depth int) (res Sexp, err error) {
 	case TokenSymbol:
 		if tok.str == "-" || tok.str == "+" {
 			// are we -Inf ?
-			// plain peek: a final + or - is a complete datum, do not ask for more input
-			tok2, err := lexer.PeekNextToken(0)
+			// a final + or - is a complete datum, do not ask for more input
+			tok2, err := parser.peekAfterSign(depth)
 			if err != nil {
 				return SexpEnd, err
 			}
@@ -580,6 +580,15 @@ func (p *Parser) ParsingIter() iter.Seq[*ParserReply] {
 		const depth0 int = 0
 		for {
 			expr, err = p.ParseExpression(depth0)
+			if err == nil && expr == SexpEnd {
+				// the input ended at top level, possibly right behind a
+				// token that only the end of the input terminates
+				var flushed bool
+				flushed, err = p.lexer.flushAtEnd()
+				if err == nil && flushed {
+					continue
+				}
+			}
 			if err != nil || expr == SexpEnd {
 				p.sendMe.Err = err
 				yield(p.sendMe)
@@ -736,6 +745,21 @@ func (parser *Parser) ParseInfix(depth int) (Sexp, error) {
 	}
 	return &list, nil
 	//return &SexpArray{Val: arr, Infix: true, Env: env}, nil
+}
+
+// peekAfterSign looks at the token after a lone + or - (is it Inf?) without
+// asking for more input. At top level the end of the input ends the text,
+// so a pending last token (the Inf of "- Inf") is delivered first.
+func (parser *Parser) peekAfterSign(depth int) (tok Token, err error) {
+	tok, err = parser.lexer.PeekNextToken(0)
+	if depth == 0 && err == nil && tok.typ == TokenEnd {
+		var flushed bool
+		flushed, err = parser.lexer.flushAtEnd()
+		if err == nil && flushed {
+			tok, err = parser.lexer.PeekNextToken(0)
+		}
+	}
+	return
 }
 
 func (parser *Parser) Linenum() int {
